@@ -206,7 +206,7 @@ typedef struct { uint64_t high, low; } Fake_uint128;
         c = (f"__CPROVER_requires({req})\n" if req else "") + f"__CPROVER_ensures(NATIVE(__CPROVER_return_value) == (unsigned __int128)({spec}))\n__CPROVER_assigns()\n"
         fn = Fn(U128, sel, "f128_" + name, c, sig_subs=[(opn, "f128_" + name)], subs=SUBS, canary=canary)
         args = "in_a" if one else ("in_a, in_s" if shift else "in_a, in_b")
-        U.append(Unit(f"fake_uint128.{name}", "C11", [fn], enforce="f128_" + name, globals_=G, inputs=["in_a", "in_b", "in_s"],
+        U.append(Unit(f"fake_uint128.{name}", "C11", [fn], enforce="f128_" + name, globals_=G, inputs=["in_a", "in_b", "in_s"], replay=mk_replay_f128(name),
                       harness=H("  Fake_uint128 in_a, in_b; in_a.high = nondet_ulong(); in_a.low = nondet_ulong(); in_b.high = nondet_ulong(); in_b.low = nondet_ulong(); uint8_t in_s = nondet_uchar();",
                                 f"f128_{name}({args});"),
                       desc=f"Fake_uint128 operator {name}: equals the native unsigned __int128 result on all inputs (and the class's own GUDHI_VERIF holds)"))
@@ -353,8 +353,43 @@ __CPROVER_decreases(count)
                   desc="Cns_encoding::get_max (binary search): for every monotone predicate returns the largest admissible vertex in [bottom, top]; loop contract, termination"))
 
 
+def cns_table_units(U):
+    """Cns_encoding constructor: the Pascal table equals the binomial coefficients (n <= 8, k <= 4, bounded)"""
+    G = ND + """
+typedef int vertex_t; typedef int8_t dimension_t; typedef uint64_t simplex_t;
+#define VP_DIGITS 64
+#define NB 9
+#define KB 5
+simplex_t B[KB][NB]; int extra_bits;
+#define VP_B_INIT(rows, cols) do { __CPROVER_assert((rows) <= KB && (cols) <= NB, "R7: table within capacity"); for (int r_ = 0; r_ < KB; r_++) for (int c_ = 0; c_ < NB; c_++) B[r_][c_] = 0; } while (0)
+#define VP_MINV(a, b) (((vertex_t)(b)) < ((vertex_t)(a)) ? ((vertex_t)(b)) : ((vertex_t)(a)))
+int g_i, g_j;
+/* closed form: C(i, j) for i <= 10, j <= 4 */
+static uint64_t binom(int i, int j) { if (j < 0 || j > i) return 0; uint64_t r = 1; for (int t = 1; t <= 4; t++) if (t <= j) r = r * (uint64_t)(i - j + t) / (uint64_t)t; return r; }
+"""
+    con = """
+__CPROVER_requires(n >= 1 && n <= 8 && k >= 1 && k <= 4 && g_thrown == 0 && g_i >= 0 && g_i <= n && g_j >= 0 && g_j <= k)
+__CPROVER_ensures(g_thrown == 0)
+__CPROVER_ensures(B[g_j][g_i] == binom(g_i, g_j))
+__CPROVER_ensures(extra_bits >= 0 && extra_bits <= 64)
+__CPROVER_assigns(B, extra_bits, g_thrown)
+"""
+    SUBS = [(r"static_assert\([^;]*\);", "", 0), (r"std::numeric_limits<simplex_t>::digits", "VP_DIGITS", 0),
+            (r"B = k \+ 1, std::vector<simplex_t>\(n \+ 1, 0\);", "VP_B_INIT(k + 1, n + 1);"), (r"std::min<vertex_t>\(", "VP_MINV(", 0),
+            (r"log2up\(max_simplex_index \+ 1\)", "log2up_s(max_simplex_index + 1)")]
+    f_log = Fn(RP, r"constexpr int log2up\(vertex_t n\)", "log2up_s", "", sig_subs=[(r"vertex_t n", "simplex_t n")])
+    f_ctor = Fn(RP, r"Cns_encoding\(vertex_t n, dimension_t k\) : B\(k \+ 1, std::vector<simplex_t>\(n \+ 1, 0\)\)", "cns_ctor", con, subs=SUBS,
+                canary=(r"B\[j - 1\]\[i - 1\] \+ B\[j\]\[i - 1\]", "B[j - 1][i - 1] + B[j][i - 1] + (i == 7)"))
+    U.append(Unit("cns.table", "C11", [f_log, f_ctor], enforce="cns_ctor", globals_=G, unwind=12, route="B", bound="n <= 8 vertices, k <= 4 (table of at most 5 x 9 binomials)",
+                  inputs=["in_n", "in_k", "g_i", "g_j"],
+                  harness=H("  int in_n = nondet_int(); int8_t in_k = (int8_t)nondet_int(); g_i = nondet_int(); g_j = nondet_int(); g_thrown = 0;", "cns_ctor(in_n, in_k);"),
+                  runs=[Run(backend="kissat", timeout=600)],
+                  desc="Cns_encoding constructor: every entry B[j][i] of the table equals the binomial coefficient C(i, j) (ghost indices), no spurious overflow refusal"))
+
+
 def units(tier):
     U = []
+    cns_table_units(U)
     cns_units(U)
     compressed_matrix_units(U)
     enumerator_units(U)
@@ -398,7 +433,7 @@ def mk_replay_f128(name):
         vals = [fld("in_a", "high"), fld("in_a", "low"), fld("in_b", "high"), fld("in_b", "low")]
         if None in vals:
             return {"reproduced": None, "detail": f"operands not in the trace: {i}"}
-        cmd = [_bin("ripser_bits", ["-DGUDHI_FORCE_FAKE_UINT128"]), "f128", name] + [_n(v) for v in vals]
+        cmd = [_bin("ripser_bits", ["-DGUDHI_FORCE_FAKE_UINT128", "-DNDEBUG"]), "f128", name] + [_n(v) for v in vals] + [_n(i.get("in_s", 0))]
         rc, o, e, s = sh(cmd, 60)
         return {"reproduced": True if rc == 1 else (False if rc == 0 else None), "cmd": " ".join(cmd), "detail": (o + e).strip()[-500:], "rc": rc}
     return rp
@@ -410,7 +445,7 @@ def mk_replay_sparse():
         d, t = i.get("g_mat_ij"), i.get("threshold")
         if d is None or t is None or not str(d).startswith("bits:"):
             return {"reproduced": None, "detail": "distance / threshold not in the trace"}
-        cmd = [_bin("ripser_bits", ["-DGUDHI_FORCE_FAKE_UINT128"]), "sparse", "x", str(d)[5:], str(t)[5:]]
+        cmd = [_bin("ripser_bits", ["-DGUDHI_FORCE_FAKE_UINT128", "-DNDEBUG"]), "sparse", "x", str(d)[5:], str(t)[5:]]
         rc, o, e, s = sh(cmd, 60)
         return {"reproduced": True if rc == 1 else (False if rc == 0 else None), "cmd": " ".join(cmd), "detail": (o + e).strip()[-500:], "rc": rc}
     return rp
@@ -420,15 +455,43 @@ def native(tier, seed, bdir, only=None):
     """primality test of ripser.h vs trial division (shared exhaustive-native sweep, see contracts/c10.py)"""
     import fnmatch
     from contracts import c10
-    if only and not fnmatch.fnmatch("native.is_prime", only):
-        return []
-    return c10.primes_native(bdir)
+    out = []
+    if not only or fnmatch.fnmatch("native.is_prime", only):
+        out += c10.primes_native(bdir)
+    for tag, defs in (("fake_uint128", ["-DGUDHI_FORCE_FAKE_UINT128"]), ("native_int128", [])):
+        uid = f"native.coeff_packing.{tag}"
+        if only and not fnmatch.fnmatch(uid, only):
+            continue
+        import json
+        os.makedirs(bdir, exist_ok=True)
+        exe = os.path.join(bdir, "ripser_coeff_" + tag)
+        rc, o, e, s = sh(["g++", "-std=c++17", "-O1", "-w", "-DNDEBUG"] + defs + ["-I/repo/src/Ripser/include", "-I/repo/src/common/include",
+                          os.path.join(VERIF, "native", "ripser_coeff.cpp"), "-o", exe], 600)
+        if rc != 0:
+            out.append({"unit": uid, "status": "error", "notes": (o + e)[-1500:], "cases": 0, "failures": []})
+            continue
+        rc, o, e, secs = sh([exe], 600)
+        rec = {"unit": uid, "route": "B", "kind": "native (bounded)", "status": "ok", "cases": 0, "failures": [], "seconds": round(secs, 2),
+               "bound": "17 bits per vertex, 5 vertices; every 2^k and 2^k - 1 below 2^85 plus 200 pseudo-random indices; moduli 3, 5, 7, 11, 251",
+               "desc": f"entry_with_coeff_t round trips on the real Rips_filtration with simplex_t = {'Fake_uint128' if defs else 'unsigned __int128'} (the portable type cannot be bound in CBMC's C front end)"}
+        try:
+            js = json.loads(o.strip().split("\n")[-1])
+            rec["cases"] = rec["obligations"] = js["checked"]
+            for m in js["first"]:
+                m["id"] = f"case{len(rec['failures'])}"
+                m["input_class"] = None
+                rec["failures"].append(m)
+        except (ValueError, IndexError):
+            rec["status"] = "error"
+            rec["notes"] = f"native run failed rc={rc}: {(o + e)[-600:]}"
+        out.append(rec)
+    return out
 
 
 def mk_replay_dense():
     def rp(unit, failure):
         # a cofacet whose diameter equals the threshold: the unit square without threshold (enclosing radius sqrt 2)
-        cmd = [_bin("ripser_bits", ["-DGUDHI_FORCE_FAKE_UINT128"]), "dense", "x", "0", "0"]
+        cmd = [_bin("ripser_bits", ["-DGUDHI_FORCE_FAKE_UINT128", "-DNDEBUG"]), "dense", "x", "0", "0"]
         rc, o, e, s = sh(cmd, 60)
         return {"reproduced": True if rc == 1 else (False if rc == 0 else None), "cmd": " ".join(cmd), "detail": (o + e).strip()[-500:], "rc": rc}
     return rp
@@ -436,7 +499,7 @@ def mk_replay_dense():
 
 def selftest():
     try:
-        _bin("ripser_bits", ["-DGUDHI_FORCE_FAKE_UINT128"])
+        _bin("ripser_bits", ["-DGUDHI_FORCE_FAKE_UINT128", "-DNDEBUG"])
         return "native replay program builds against /repo's headers"
     except Exception as ex:
         return "FAIL " + str(ex)[:500]
